@@ -118,3 +118,29 @@ Definition req_indices (l : list tev) : list N :=
 Definition resp_indices (l : list tev) : list N :=
   flat_map (fun e => match e with TRespData i => [i] | _ => [] end) l.
 Definition upto (n : nat) : list N := map N.of_nat (seq 0 n).
+
+(* "records no event after completion": in a delivered trace nothing follows a finishing
+   event (an end of the response body, a response or request-body error, a cancellation) *)
+Definition tev_finishing (e : tev) : bool :=
+  match e with
+  | TReqEnd x => negb (x =? 0)
+  | TRespError _ | TRespEnd _ | TCanceled => true
+  | _ => false
+  end.
+Definition nothing_after_finish (evs : list tev) : Prop :=
+  forall pre e post, evs = pre ++ e :: post -> tev_finishing e = true -> post = [].
+
+(* ---------- concurrency: interleavings of goroutines ---------- *)
+(* l is a merge of l1 and l2 that keeps the order inside each of them *)
+Inductive Shuffle {A} : list A -> list A -> list A -> Prop :=
+| Sh_nil : Shuffle [] [] []
+| Sh_l : forall a l1 l2 l, Shuffle l1 l2 l -> Shuffle (a :: l1) l2 (a :: l)
+| Sh_r : forall a l1 l2 l, Shuffle l1 l2 l -> Shuffle l1 (a :: l2) (a :: l).
+
+(* l is an interleaving of the scripts ss: every script's actions occur in l in program
+   order, and l contains nothing else *)
+Fixpoint Interleave {A} (ss : list (list A)) (l : list A) : Prop :=
+  match ss with
+  | [] => l = []
+  | s :: r => exists m, Interleave r m /\ Shuffle s m l
+  end.
